@@ -159,6 +159,10 @@ func runCheck(repo, verif, id, tier string, writeLedger bool) int {
 		return 2
 	}
 	evPath := filepath.Join(verif, "evidence", id+".json")
+	child := os.Getenv("GOVC_CHILD") != ""
+	if child {
+		evPath = filepath.Join(verif, "work", "child", id+"-"+strconv.Itoa(os.Getpid())+".json")
+	}
 	fail := func(msg string) int {
 		// infrastructure failure: not a violation; evidence says so
 		fmt.Println("ERROR", msg)
@@ -180,6 +184,15 @@ func runCheck(repo, verif, id, tier string, writeLedger bool) int {
 		timeout = 60
 	}
 	work := filepath.Join(verif, "work", "smt", id)
+	if child {
+		work = filepath.Join(verif, "work", "child", "smt-"+id+"-"+strconv.Itoa(os.Getpid()))
+		defer os.RemoveAll(work)
+		defer func() {
+			if e.overlayDir != "" {
+				os.RemoveAll(e.overlayDir)
+			}
+		}()
+	}
 	os.RemoveAll(work)
 	os.MkdirAll(work, 0o755)
 
@@ -301,6 +314,9 @@ func runCheck(repo, verif, id, tier string, writeLedger bool) int {
 			ledRes, inLedger := led.Obls[o.Name]
 			funcChanged := led.Functions != nil && led.Functions[o.Func] != hashOf[o.Func]
 			replayPath := filepath.Join(verif, "work", "replay", id, sanitizeFile(o.Name)+".json")
+			if child {
+				replayPath = filepath.Join(verif, "work", "child", "replay-"+id, sanitizeFile(o.Name)+".json")
+			}
 			if o.Result == "error" {
 				lines = append(lines, fmt.Sprintf("UNDECIDED property=%s %s solver-error %s", id, o.Name, firstLines(o.Model, 2)))
 				undecided++
@@ -346,6 +362,40 @@ func runCheck(repo, verif, id, tier string, writeLedger bool) int {
 		}
 		if missing > 0 {
 			lines = append(lines, fmt.Sprintf("NOTE property=%s %d ledgered obligations no longer generated (code shape changed)", id, missing))
+		}
+	}
+	// thorough tier: cross-solver agreement on every discharged obligation, and the must-fail corpus
+	var thoroughCov map[string]interface{}
+	if tier == "thorough" && !child {
+		thoroughCov = map[string]interface{}{}
+		checked, disputes := crossSolver(work, all, 20)
+		thoroughCov["cross_solver_checked"] = checked
+		thoroughCov["cross_solver_disputes"] = disputes
+		for _, d := range disputes {
+			lines = append(lines, fmt.Sprintf("UNDECIDED property=%s solver-dispute %s", id, d))
+			undecided++
+		}
+		if violations == 0 {
+			var keys []string
+			for _, r := range reps {
+				keys = append(keys, r.Key)
+			}
+			nv, per, mism := e.conformance(keys, int64(seed)+7, 300)
+			thoroughCov["traces_validated_against_impl"] = nv
+			thoroughCov["conformance_per_function"] = per
+			for _, m := range mism {
+				lines = append(lines, fmt.Sprintf("UNDECIDED property=%s conformance-mismatch (contract passes the verifier but a real execution disagrees) %s", id, m))
+				undecided++
+			}
+		}
+		if violations == 0 {
+			tried, caught, results, regress := mustFailCorpus(verif, id)
+			thoroughCov["must_fail"] = map[string]interface{}{"tried": tried, "caught": caught, "results": results,
+				"how": "each confirmed seeded change under /verif/seeded is applied through a packages/go-test overlay (no write to /repo) and this property's quick check is re-run on it"}
+			for _, r := range regress {
+				lines = append(lines, fmt.Sprintf("UNDECIDED property=%s must-fail-regression seeded change %s was caught by this check before and is not now", id, r))
+				undecided++
+			}
 		}
 	}
 	sort.Strings(lines)
@@ -401,6 +451,9 @@ func runCheck(repo, verif, id, tier string, writeLedger bool) int {
 		"undecided":                undecided,
 		"samples":                  samples,
 		"output_lines":             lines,
+	}
+	for k, v := range thoroughCov {
+		cov[k] = v
 	}
 	if expl != "" {
 		cov["explanation"] = expl
